@@ -533,6 +533,10 @@ func oracleProgress(o *e2eOutcome, v vfn) {
 				}
 			}
 			fp := "undelivered"
+			if m, ok := o.final[tgt]; ok && w.isVersion(f.Name, m) && len(o.spec.Mutations) > 0 {
+				// known: versions of one name share the staged body / companion, and polls go by name
+				fp = "newer-version-stranded-behind-delivered-older-version"
+			}
 			if m, ok := o.final[tgt+".lck"]; ok && m == ver.MD5 && o.recvCrash > 0 {
 				fp = "left-under-temporary-name-after-receiver-crash"
 				state += "; " + tgt + ".lck holds the file"
